@@ -97,6 +97,24 @@ def gen_calc_kw(rng, kind, allow_natural=True):
             kw["distributed_slack"] = True
         if rng.random() < 0.07:
             kw["voltage_depend_loads"] = False
+        # further option-dependent code paths of the conversion (each multiplies / corrects arrays taken from the net)
+        if rng.random() < 0.1:
+            kw["trafo_loading"] = "power"
+        if rng.random() < 0.08:
+            kw["trafo3w_losses"] = "star"
+        if rng.random() < 0.08:
+            kw["switch_rx_ratio"] = 5
+        if rng.random() < 0.08:
+            kw["neglect_open_switch_branches"] = True
+        if rng.random() < 0.1:
+            kw["consider_line_temperature"] = True
+    elif kind == "rundcpp":
+        if rng.random() < 0.2:
+            kw["trafo_model"] = "pi"
+        if rng.random() < 0.15:
+            kw["check_connectivity"] = False
+        if rng.random() < 0.15:
+            kw["trafo_loading"] = "power"
     elif kind in ("runopp", "rundcopp"):
         if kind == "runopp" and rng.random() < 0.3:
             kw["init"] = rng.choice(["flat", "pf"])
@@ -115,6 +133,20 @@ def gen_calc_kw(rng, kind, allow_natural=True):
             kw["ip"] = True
         if rng.random() < 0.2:
             kw["ith"] = True
+        if rng.random() < 0.15:
+            kw["kappa_method"] = "B"
+        if rng.random() < 0.15:
+            kw["topology"] = "radial"
+        if rng.random() < 0.15:
+            kw.update(r_fault_ohm=0.1, x_fault_ohm=0.2)
+        if rng.random() < 0.1:
+            kw["lv_tol_percent"] = 6
+        if rng.random() < 0.1:
+            kw["check_connectivity"] = False
+        if rng.random() < 0.15 and kw["fault"] == "3ph":
+            kw["use_pre_fault_voltage"] = True
+        if "bus_k" in kw:
+            kw["bus_form"] = rng.choice(["list", "array", "index", "int"])
     elif kind in ("run_contingency", "run_contingency_ls2g", "run_contingency_parallel"):
         kw["cases"] = {"line": [rng.randrange(100) for _ in range(rng.randint(1, 4))],
                        "trafo": [rng.randrange(100) for _ in range(rng.randint(0, 2))]}
@@ -308,6 +340,12 @@ def _exec_calc(net, op, i, ctx):
     if stratum == "natural":
         kw, undo = apply_natural(net, op)
         ctx.fault_configured("natural-fail")
+    if kw.get("consider_line_temperature") and len(net.line):
+        # the user's input for this option (given before the calculation, so it is part of the snapshot)
+        if "temperature_degree_celsius" not in net.line.columns:
+            net.line["temperature_degree_celsius"] = 40.
+        if "alpha" not in net.line.columns:
+            net.line["alpha"] = 4.03e-3
     snap = oracles.snapshot(net)
     n_aux = _n_aux(net)
     fired = None
